@@ -68,7 +68,7 @@ fn aread_with(ctor: &str, w: &[&str], setmax: Option<u32>) -> Option<String> {
     let [ml, st, sc, acts] = w else { return None };
     let (ml, st, sc) = (maxlen(ml)?, unhex(st)?, parse_script(sc)?);
     let acts: Vec<char> = if *acts == "-" { Vec::new() } else { acts.chars().collect() };
-    if acts.iter().any(|c| *c != 'p' && *c != 'd' && !(*c == 'm' && setmax.is_some())) { return None }
+    if acts.iter().any(|c| *c != 'p' && *c != 'd' && !((*c == 'm' || *c == 'r' || *c == 'c') && setmax.is_some())) { return None }
     let mut rd = match ctor_buf(ctor)? { None => AsyncReader::new(Src::new(st, sc)), Some(b) => AsyncReader::with_buffer(Src::new(st, sc), b) };
     if let Some(ml) = ml { rd.set_max_len(ml) }
     calls_reset();
@@ -79,6 +79,10 @@ fn aread_with(ctor: &str, w: &[&str], setmax: Option<u32>) -> Option<String> {
     while i < acts.len() {
         if acts[i] == 'd' { out.push("-".into()); i += 1; continue }
         if acts[i] == 'm' { rd.set_max_len(setmax?); out.push("-".into()); i += 1; continue }
+        // `r`: the accessors `reader_mut()` / `reader()` are called (nothing is done with the references); `c`: `read()` is called and the
+        // future dropped without a poll.  Neither touches what has been received so far.
+        if acts[i] == 'r' { let _ = rd.reader_mut(); let _ = rd.reader(); out.push("-".into()); i += 1; continue }
+        if acts[i] == 'c' { { let f = rd.read::<V>(); drop(f); } out.push("-".into()); i += 1; continue }
         // 'p' with no future alive: call read() and poll the new future
         let mut fut = std::pin::pin!(rd.read::<V>());
         loop {
@@ -90,7 +94,7 @@ fn aread_with(ctor: &str, w: &[&str], setmax: Option<u32>) -> Option<String> {
                     out.push("P".into());
                     if i >= acts.len() { break }
                     if acts[i] == 'd' { out.push("-".into()); i += 1; break }
-                    if acts[i] == 'm' { break }            // the future is dropped, the outer loop makes the call
+                    if acts[i] == 'm' || acts[i] == 'r' || acts[i] == 'c' { break }            // the future is dropped, the outer loop makes the call
                 }
             }
         }
@@ -101,7 +105,7 @@ fn aread_with(ctor: &str, w: &[&str], setmax: Option<u32>) -> Option<String> {
 }
 
 #[derive(Clone, Copy, PartialEq)]
-enum WAct { Write(usize), Sync, Poll, Drop, SetMax(u32), Create(Option<usize>) }
+enum WAct { Write(usize), Sync, Poll, Drop, SetMax(u32), Create(Option<usize>), Touch }
 
 /// `awrite <maxlen> <vals> <script> <acts>`; acts: `w<i>` call `write(vals[i])` and poll once,
 /// `s` call `sync()` and poll once, `p` poll the pending future, `d` drop it, `c<i>` / `cs` call `write(vals[i])` / `sync()` and drop
@@ -119,6 +123,7 @@ fn awrite_with(ctor: &str, flush_mode: u8, w: &[&str]) -> Option<String> {
         "p" => Some(WAct::Poll),
         "d" => Some(WAct::Drop),
         "cs" => Some(WAct::Create(None)),
+        "g" => Some(WAct::Touch),
         _ if a.starts_with('c') => a[1..].parse::<usize>().ok().filter(|k| *k < vs.len()).map(|k| WAct::Create(Some(k))),
         _ if a.starts_with('m') => a[1..].parse::<u32>().ok().map(WAct::SetMax),
         _ => a.strip_prefix('w').and_then(|k| k.parse::<usize>().ok()).filter(|k| *k < vs.len()).map(WAct::Write)
@@ -140,6 +145,8 @@ fn awrite_with(ctor: &str, flush_mode: u8, w: &[&str]) -> Option<String> {
                 match k { Some(k) => { let f = wr.write(&vs[k]); drop(f) } None => { let f = wr.sync(); drop(f) } }
                 out.push("-".into()); i += 1; continue
             }
+            // the accessors `writer_mut()` / `writer()` are called (nothing is done with the references)
+            WAct::Touch => { let _ = wr.writer_mut(); let _ = wr.writer(); out.push("-".into()); i += 1; continue }
             WAct::Write(k) => {
                 let (wr, v) = (&mut wr, &vs[k]);
                 Box::pin(async move { format!("w:{}", show_write(&wr.write(v).await)) })
@@ -159,7 +166,7 @@ fn awrite_with(ctor: &str, flush_mode: u8, w: &[&str]) -> Option<String> {
                     match acts[i] {
                         WAct::Poll => { i += 1 }
                         WAct::Drop => { out.push("-".into()); i += 1; break }
-                        WAct::Write(_) | WAct::Sync | WAct::SetMax(_) | WAct::Create(_) => break
+                        WAct::Write(_) | WAct::Sync | WAct::SetMax(_) | WAct::Create(_) | WAct::Touch => break
                     }
                 }
             }
